@@ -78,6 +78,22 @@ def stepCodec (p : CodecProg) (toks : List String) : CodecProg × String :=
   | "amsg" :: _ :: pre :: toks => (p, match unhex pre, toks.mapM parseFieldTok with
     | some pre, some fs => "ok " ++ hx (encodeFlatMsg pre fs)
     | _, _ => "bad-op")
+  | ["astruct", "val", a, k, j, st, tok, t] =>   -- through `encodeValidator`, the function `C20.validator_injective` speaks about
+    (p, match a.splitOn ":", k.splitOn ":", j.splitOn ":", st.splitOn ":", tok.splitOn ":", t.splitOn ":" with
+      | ["b", a], ["k", kp, kk], ["u", j], ["u", st], ["i", tok], ["t", s, n] =>
+        (match unhex a, unhex kp, unhex kk, j.toNat?, st.toNat?, tok.toInt?, s.toInt?, n.toNat? with
+        | some a, some kp, some kk, some j, some st, some tok, some s, some n =>
+          "ok " ++ hx (encodeValidator { addr := a, pk := kp ++ lenPrefixed kk, jailed := j != 0, status := st, tokens := tok, secs := s, nanos := n })
+        | _, _, _, _, _, _, _, _ => "bad-op")
+      | _, _, _, _, _, _ => "bad-op")
+  | ["astruct", "sign", a, sh, off, t, tomb, miss] =>   -- through `encodeSigning`
+    (p, match a.splitOn ":", sh.splitOn ":", off.splitOn ":", t.splitOn ":", tomb.splitOn ":", miss.splitOn ":" with
+      | ["b", a], ["s", sh], ["s", off], ["t", s, n], ["u", tomb], ["s", miss] =>
+        (match unhex a, sh.toInt?, off.toInt?, s.toInt?, n.toNat?, tomb.toNat?, miss.toInt? with
+        | some a, some sh, some off, some s, some n, some tomb, some miss =>
+          "ok " ++ hx (encodeSigning { addr := a, start := sh, offset := off, secs := s, nanos := n, tombstoned := tomb != 0, missed := miss })
+        | _, _, _, _, _, _, _ => "bad-op")
+      | _, _, _, _, _, _ => "bad-op")
   | "astruct" :: _ :: toks => (p, match toks.mapM parseFldTok with
     | some fs => "ok " ++ hx (encodeStruct 1 fs)
     | none => "bad-op")
